@@ -76,9 +76,12 @@ def join_rule(prog, rep, ctx):
         lid = next(iter(lids))
         own = ("sub", ("f", SELF, "_bins", 0), ("pos", lid), 0)
         cs = [strip_epochs(posform(c)) for c in all_conds(p)]
+        other = ("sub", ("f", SECOND, "_bins", 0), ("pos", lid), 0)
+        if path_orderings(cs, other, C(0)) <= {EQ}:
+            continue  # the operand's cell is 0: leaving the own cell alone is the sum
         if not (path_orderings(cs, own, C(IMIN)) <= {EQ} or path_orderings(cs, own, C(IMAX)) <= {EQ}):
             bad_c = [c for c in p.conds if c.loops][-1]
-            rep.bad("C12.join-cells", where, "cell skipped", "the walk leaves a cell unmerged on a path that has not established that the cell is pinned at INT32_MIN or INT32_MAX: "
+            rep.bad("C12.join-cells", where, "cell skipped", "the walk leaves a cell unmerged on a path that has not established that the cell is pinned at INT32_MIN or INT32_MAX (or that the operand's cell is 0): "
                     "the operand's count for that cell is dropped", f.where(bad_c.node))
             okc = False
     # a returning path that merges no cell at all is sound only where the operand's cells are known to be all zero
